@@ -48,59 +48,75 @@ func runC06(p *core.Prog, r *core.Report) {
 		calls := map[string]bool{}
 		nWrites := 0
 		var bufAlloc ssa.Value
-		core.Instrs(fn, func(in ssa.Instruction) {
-			c, ok := in.(*ssa.Call)
-			if !ok {
-				return
+		// the functions that write into the hashed buffer: hashModule and the helpers of its family that receive the buffer
+		// (a part of the signature extracted into a method)
+		writers := []*ssa.Function{fn}
+		for _, m := range core.Family(fn, 1) {
+			if m == fn || m.Parent() != nil {
+				continue
 			}
-			cl := core.CommonCallee(c.Common())
-			if cl == nil {
-				return
-			}
-			k := calleeKey(cl)
-			isBufWrite := (k == "bytes.Write" || k == "bytes.WriteString" || k == "bytes.WriteByte") && strings.Contains(cl.Type().(*types.Signature).Recv().Type().String(), "bytes.Buffer")
-			isHashWrite := c.Call.IsInvoke() && cl.Name() == "Write" && strings.Contains(c.Call.Value.Type().String(), "hash.Hash")
-			if !isBufWrite && !isHashWrite {
-				return
-			}
-			nWrites++
-			r.CallSites++
-			arg := c.Call.Args[len(c.Call.Args)-1]
-			if isBufWrite {
-				bufAlloc = c.Call.Args[0]
-			}
-			if isHashWrite {
-				// must be the buffer's bytes
-				s := core.Trace(arg, 0)
-				okB := false
-				for cc := range s.Calls {
-					if calleeKey(cc) == "bytes.Bytes" {
-						okB = true
-					}
+			for _, prm := range m.Params {
+				if strings.HasSuffix(prm.Type().String(), "bytes.Buffer") {
+					writers = append(writers, m)
+					r.Touch(core.FuncName(m))
 				}
-				r.Check(okB, "C06.R1", "hashModule/digest-input", "the digest is computed over the buffer's bytes (everything written, nothing else)", "hash input does not come from buf.Bytes()", p.Pos(c.Pos()))
-				return
 			}
-			if _, isConst := arg.(*ssa.Const); isConst {
-				return
-			}
-			s := core.TraceWithResolvers(arg, 3, res, map[*types.Func]bool{p.FuncObj(pkgMani, "ModuleHashes.hashModuleSimple"): true})
-			for f := range s.Fields {
-				valueUse[f] = true
-			}
-			for f := range s.KeyFields {
-				keyUse[f] = true
-			}
-			for cc := range s.Calls {
-				calls[core.ObjName(cc)] = true
-			}
-		})
+		}
+		for _, wfn := range writers {
+			core.Instrs(wfn, func(in ssa.Instruction) {
+				c, ok := in.(*ssa.Call)
+				if !ok {
+					return
+				}
+				cl := core.CommonCallee(c.Common())
+				if cl == nil {
+					return
+				}
+				k := calleeKey(cl)
+				isBufWrite := (k == "bytes.Write" || k == "bytes.WriteString" || k == "bytes.WriteByte") && strings.Contains(cl.Type().(*types.Signature).Recv().Type().String(), "bytes.Buffer")
+				isHashWrite := c.Call.IsInvoke() && cl.Name() == "Write" && strings.Contains(c.Call.Value.Type().String(), "hash.Hash")
+				if !isBufWrite && !isHashWrite {
+					return
+				}
+				nWrites++
+				r.CallSites++
+				arg := c.Call.Args[len(c.Call.Args)-1]
+				if isBufWrite {
+					bufAlloc = c.Call.Args[0]
+				}
+				if isHashWrite {
+					// must be the buffer's bytes
+					s := core.Trace(arg, 0)
+					okB := false
+					for cc := range s.Calls {
+						if calleeKey(cc) == "bytes.Bytes" {
+							okB = true
+						}
+					}
+					r.Check(okB, "C06.R1", "hashModule/digest-input", "the digest is computed over the buffer's bytes (everything written, nothing else)", "hash input does not come from buf.Bytes()", p.Pos(c.Pos()))
+					return
+				}
+				if _, isConst := arg.(*ssa.Const); isConst {
+					return
+				}
+				s := core.TraceWithResolvers(arg, 3, res, map[*types.Func]bool{p.FuncObj(pkgMani, "ModuleHashes.hashModuleSimple"): true})
+				for f := range s.Fields {
+					valueUse[f] = true
+				}
+				for f := range s.KeyFields {
+					keyUse[f] = true
+				}
+				for cc := range s.Calls {
+					calls[core.ObjName(cc)] = true
+				}
+			})
+		}
 		if nWrites < 10 {
 			core.Undecide("hashModule: only %d writes into the hashed buffer found", nWrites)
 		}
 		_ = bufAlloc
 		// implicit flows: type switches in hashModule and in the static callees whose results are written
-		for _, f := range []*ssa.Function{fn, p.Func(pkgMani, "inputName"), p.Func(pkgMani, "inputValue")} {
+		for _, f := range append(append([]*ssa.Function{}, writers...), p.Func(pkgMani, "inputName"), p.Func(pkgMani, "inputValue")) {
 			core.Instrs(f, func(in ssa.Instruction) {
 				if ta, ok := in.(*ssa.TypeAssert); ok {
 					for fl := range core.Trace(ta.X, 1).Fields {
@@ -131,65 +147,67 @@ func runC06(p *core.Prog, r *core.Report) {
 		bfT := p.Named(pkgPBV1, "Module_BlockFilter")
 		okFilter, okAnc, cacheUse := false, false, ""
 		cacheF := p.Field(pkgMani, "ModuleHashes", "cache")
-		core.Instrs(fn, func(in ssa.Instruction) {
-			c, ok := in.(*ssa.Call)
-			if !ok {
-				return
-			}
-			cl := core.CommonCallee(c.Common())
-			if cl == nil {
-				return
-			}
-			k := calleeKey(cl)
-			if !((k == "bytes.Write" || k == "bytes.WriteString") && strings.Contains(cl.Type().(*types.Signature).Recv().Type().String(), "bytes.Buffer")) {
-				return
-			}
-			arg := c.Call.Args[len(c.Call.Args)-1]
-			if _, isConst := arg.(*ssa.Const); isConst {
-				return
-			}
-			// the value written, traced without entering callees
-			var rec *ssa.Call
-			seenV := map[ssa.Value]bool{}
-			var find func(v ssa.Value, d int)
-			find = func(v ssa.Value, d int) {
-				if v == nil || seenV[v] || d > 6 {
+		for _, wfn := range writers {
+			core.Instrs(wfn, func(in ssa.Instruction) {
+				c, ok := in.(*ssa.Call)
+				if !ok {
 					return
 				}
-				seenV[v] = true
-				switch x := v.(type) {
-				case *ssa.Call:
-					if cc := core.CommonCallee(x.Common()); cc == hm || cc == hM {
-						rec = x
+				cl := core.CommonCallee(c.Common())
+				if cl == nil {
+					return
+				}
+				k := calleeKey(cl)
+				if !((k == "bytes.Write" || k == "bytes.WriteString") && strings.Contains(cl.Type().(*types.Signature).Recv().Type().String(), "bytes.Buffer")) {
+					return
+				}
+				arg := c.Call.Args[len(c.Call.Args)-1]
+				if _, isConst := arg.(*ssa.Const); isConst {
+					return
+				}
+				// the value written, traced without entering callees
+				var rec *ssa.Call
+				seenV := map[ssa.Value]bool{}
+				var find func(v ssa.Value, d int)
+				find = func(v ssa.Value, d int) {
+					if v == nil || seenV[v] || d > 6 {
 						return
 					}
-				case *ssa.Extract:
-					find(x.Tuple, d+1)
-				case *ssa.Convert:
-					find(x.X, d+1)
-				case *ssa.ChangeType:
-					find(x.X, d+1)
-				case *ssa.Phi:
-					for _, e := range x.Edges {
-						find(e, d+1)
+					seenV[v] = true
+					switch x := v.(type) {
+					case *ssa.Call:
+						if cc := core.CommonCallee(x.Common()); cc == hm || cc == hM {
+							rec = x
+							return
+						}
+					case *ssa.Extract:
+						find(x.Tuple, d+1)
+					case *ssa.Convert:
+						find(x.X, d+1)
+					case *ssa.ChangeType:
+						find(x.X, d+1)
+					case *ssa.Phi:
+						for _, e := range x.Edges {
+							find(e, d+1)
+						}
 					}
 				}
-			}
-			find(arg, 0)
-			if rec != nil {
-				mod := rec.Call.Args[2]
-				src := core.TraceWithResolvers(mod, 0, res, nil)
-				if src.HasCall(p.FuncObj(pkgMani, "ModuleGraph.Module")) && src.KeyFields[core.FieldOf(bfT, "Module")] {
-					okFilter = true
+				find(arg, 0)
+				if rec != nil {
+					mod := rec.Call.Args[2]
+					src := core.TraceWithResolvers(mod, 0, res, nil)
+					if src.HasCall(p.FuncObj(pkgMani, "ModuleGraph.Module")) && src.KeyFields[core.FieldOf(bfT, "Module")] {
+						okFilter = true
+					}
+					if src.HasCall(p.FuncObj(pkgMani, "ModuleGraph.AncestorsOf")) && src.KeyFields[core.FieldOf(mt0(p), "Name")] {
+						okAnc = true
+					}
 				}
-				if src.HasCall(p.FuncObj(pkgMani, "ModuleGraph.AncestorsOf")) && src.KeyFields[core.FieldOf(mt0(p), "Name")] {
-					okAnc = true
+				if core.Trace(arg, 0).Fields[cacheF] {
+					cacheUse = p.Pos(c.Pos())
 				}
-			}
-			if core.Trace(arg, 0).Fields[cacheF] {
-				cacheUse = p.Pos(c.Pos())
-			}
-		})
+			})
+		}
 		r.Check(okFilter, "C06.R1", "hashModule/recursion-filter", "the hash of the block-filter module — computed by hashing the module resolved from BlockFilter.Module — is written into the hash", "no written value is the direct result of hashing the resolved filter module", p.Pos(fn.Pos()))
 		r.Check(okAnc, "C06.R1", "hashModule/recursion-ancestors", "the hash of every module returned by AncestorsOf(module.Name) is written into the hash", "no written value is the direct result of hashing the ancestors", p.Pos(fn.Pos()))
 		r.Check(cacheUse == "", "C06.R1", "hashModule/no-cache-read", "nothing hashed is read back from the per-request hash cache (a cache entry exists only if someone hashed that module before: the identifier would depend on call order)", "a value read from ModuleHashes.cache is written into the hash at "+cacheUse, p.Pos(fn.Pos()))
@@ -329,7 +347,9 @@ func runC06(p *core.Prog, r *core.Report) {
 
 	// ------------------------------------------------------------------ R6
 	r.Guard("C06.R6", "hash-errors", "no swallowed error on the hash path", func() {
-		fns := []*ssa.Function{p.Func(pkgMani, "ModuleHashes.hashModule"), p.Func(pkgMani, "ModuleHashes.HashModule"), p.Func(pkgExec, "Graph.hashModules")}
+		fns := []*ssa.Function{p.Func(pkgMani, "ModuleHashes.hashModule"), p.Func(pkgMani, "ModuleHashes.HashModule")}
+		// plus whoever, in the execution graph package, asks for the hashes (Graph.hashModules, or its caller when inlined)
+		fns = append(fns, callersInPkg(p, pkgExec, p.FuncObj(pkgMani, "ModuleHashes.HashModule"))...)
 		allowed := map[string]string{
 			"(*manifest.ModuleHashes).hashModule→AncestorsOf": "the key module.Name was inserted in the graph's index by NewModuleGraph, AncestorsOf can only fail on an unknown name",
 		}
@@ -703,6 +723,35 @@ func checkCachePaths(p *core.Prog, r *core.Report, rule string) {
 					okAll = false
 					continue
 				}
+				if format == "%s/%s" {
+					// "<hash>/<folder>" with the folder chosen among constants
+					va := errorfArgs(sp)
+					if len(va) != 2 || va[0] == nil || va[1] == nil || !core.Trace(va[0], 0).Params[hashPrm] {
+						okAll = false
+						continue
+					}
+					var leaves func(v ssa.Value, d int)
+					leaves = func(v ssa.Value, d int) {
+						switch x := v.(type) {
+						case *ssa.Phi:
+							if d < 4 {
+								for _, e := range x.Edges {
+									leaves(e, d+1)
+								}
+							}
+						case *ssa.Const:
+							if cs, ok := constString(x); ok {
+								kinds = append(kinds, cs)
+							} else {
+								okAll = false
+							}
+						default:
+							okAll = false
+						}
+					}
+					leaves(va[1], 0)
+					continue
+				}
 				kinds = append(kinds, strings.TrimPrefix(format, "%s/"))
 				if !core.Trace(sp.Call.Args[1], 0).Params[hashPrm] {
 					okAll = false
@@ -765,4 +814,19 @@ var c06Carriers = []string{
 	"manifest.ModuleHashes.HashModule", "manifest.ModuleHashes.hashModule", "manifest.ModuleHashes.hashModuleSimple", // recursive hash
 	"manifest.inputName", "manifest.inputValue", // per-input kind tag and raw value
 	"pb/sf/substreams/v1.Module.BlockFilterQueryString", // the filter's query (literal, or the raw params value it names)
+}
+
+// callersInPkg: the functions of the package rel that call obj statically (test helpers excluded).
+func callersInPkg(p *core.Prog, rel string, obj *types.Func) []*ssa.Function {
+	var out []*ssa.Function
+	for _, fn := range p.RepoFunctions() {
+		if fn.Pkg == nil || !strings.HasSuffix(fn.Pkg.Pkg.Path(), "/"+rel) || p.IsTestFunc(fn) {
+			continue
+		}
+		if len(core.FindInstrs(fn, core.IsCallTo(obj))) > 0 {
+			out = append(out, fn)
+		}
+	}
+	sort.Slice(out, func(i, j int) bool { return out[i].String() < out[j].String() })
+	return out
 }
